@@ -395,6 +395,18 @@ func fragOpts(g *Gen, n int, o *Out) {
 					o.finding(Finding{Property: "C18", Kind: "failing-input", What: "option order changes the outcome: " + base + " vs " + r, Request: lastReq(o), Detail: text})
 				}
 			}
+			// a nil option is skipped wherever it stands: in front, in the middle, twice
+			if len(sub) > 0 {
+				pos := g.r.Intn(len(sub) + 1)
+				withNil := append(append(append([]OptSpec{}, sub[:pos]...), OptSpec{Kind: "nilopt"}), sub[pos:]...)
+				if g.r.Intn(2) == 0 {
+					withNil = append([]OptSpec{{Kind: "nilopt"}}, withNil...)
+				}
+				if r := evalText(o, withNil, text, datum); r != base {
+					o.finding(Finding{Property: "C18", Kind: "failing-input", What: "a nil option among the options changes the outcome: " + base + " vs " + r, Request: lastReq(o), Detail: text})
+					o.finding(Finding{Property: "C08", Kind: "failing-input", What: "a nil option among the options changes the outcome (options after it are lost?): " + base + " vs " + r, Request: lastReq(o), Detail: text})
+				}
+			}
 			// last of repeated options wins
 			if len(sub) > 0 {
 				dup := sub[g.r.Intn(len(sub))]
